@@ -105,7 +105,7 @@ PROPS = {
 }
 
 ASSUMPTIONS = [
-    "universe A of TxPool.tla: 19 transaction templates over 6 chain coins, 1 message, 2 contracts, 1 blob; pool limits "
+    "universe A of TxPool.tla: 21 transaction templates over 6 chain coins, 1 message, 2 contracts, 1 blob; pool limits "
     "max_txs=3 (spent-inputs LRU capacity 4), max_gas=8, max_bytes=9 units, chain limit 3, pending pool 67%",
     "environment: imported blocks are valid on the chain view and exclude transactions preconfirmed for a later height; "
     "success/failure preconfirmations for a future height concern transactions that are not on the chain and whose "
